@@ -72,7 +72,8 @@ CLAIMS["C07"] = dict(
          "while offsetting the next (E2 loop rule, with and without delta callback); (ii) outside the EndType::Polygon branch delta is only read "
          "through abs(), hence +delta == -delta by construction; (iii) start/end cap dispatch tables extracted by interpreting both switches for "
          "every EndType equal Butt->DoBevel(i,i), Round->DoRound(i,i,PI), Square->DoSquare(i,i) and agree at both ends; (iv) Group::Group strips a "
-         "closing vertex only for the closed end types Polygon and Joined (for open ends it is the end point of the last segment).",
+         "closing vertex only for the closed end types Polygon and Joined (for open ends it is the end point of the last segment); (v) every function of "
+         "the offsetter computes the same x/y with and without USINGZ (sibling identity modulo Z erasure).",
     note="Stroke geometry, cap extents, circles for points are NOT decided. Stale normals passed to a delta callback (D12) are reported under C12.",
     technique="static analysis: loop-carried-state dataflow + AST rule on reads of delta + interpreted dispatch tables",
     design="§3 E2/E3, §4 C07", engine="E2")
@@ -84,7 +85,8 @@ CLAIMS["C17"] = dict(
          "stored count counts exactly the written records; the first element is the allocated length; (FORWARD) each of the 76 exported parameters "
          "reaches the native parameter of its meaning, resolved by declaration (constructor slots judged by parameter name), none of another meaning, "
          "none dropped; (SCALE) dimensional analysis of the D exports; (Z-CODEC, USINGZ) every store of Z into a slot and every load from it is a "
-         "bit copy (Reinterpret or same type) so that writers and readers agree. A layout mismatch is simultaneously a round-trip failure and an out-of-bounds access.",
+         "bit copy (Reinterpret or same type) so that writers and readers agree; (CURSOR) every call of a writer advances the caller's write position "
+         "(cursor by reference, or returned position stored back). A layout mismatch is simultaneously a round-trip failure and an out-of-bounds access.",
     note="Does not decide that the native call returns the right result. Shapes outside the supported loop nest make the run analysis-broken (exit 2).",
     technique="static analysis: symbolic element-count shapes of marshalling code + parameter-flow forwarding table + dimensional analysis",
     design="§3 E4/E8, §4 C17", engine="E4")
@@ -92,7 +94,8 @@ CLAIMS["C16"] = dict(
     category="other",
     text="Static dimensional analysis of the floating-point API: in every function that derives a scale from a precision, and in ClipperD, each length "
          "(paths, rectangles, delta, arc tolerance) is S^1 at every integer-API argument and S^0 at every return; ClipperD's scale_/invScale_ wiring "
-         "is as documented; double->int64 coordinate conversion happens only through std::round; the D output builders equal their 64-bit siblings "
+         "is as documented; double->int64 coordinate conversion happens only through std::round; no wrapper hands its own double argument back "
+         "unrounded (one known finding, D17); the D output builders equal their 64-bit siblings "
          "modulo de-scaling (sibling identity, engine E6).",
     note="Bit-exact equality of results (floating-point evaluation order) and node-for-node tree shape beyond builder identity are NOT decided.",
     technique="static analysis: unit/dimension inference over the AST + sibling-identity alignment",
@@ -113,7 +116,8 @@ CLAIMS["C08"] = dict(
          "(3682 cells, exhaustive) and RectClip64::Execute uses them as 'outside -> nothing, inside -> the input path unchanged'; nothing written "
          "while clipping one path is read while clipping the next and the scratch containers are empty at every exit ('path by path'); GetLocation's "
          "25-cell table; the side arithmetic (GetAdjacentLocation, HeadingClockwise, AreOpposites, StartLocsAreClockwise) on its whole four-element "
-         "domain; GetBounds considers every vertex for min and max; the segment scan starts at the first segment on every path.",
+         "domain; GetNextLocation's per-side dispatch on every ordering of the next vertex against the rectangle (first side crossed wins in the "
+         "documented order); GetBounds considers every vertex for min and max; the segment scan starts at the first segment on every path.",
     note="The location state machine, corner insertion and TidyEdges (the behaviour for crossing paths) are NOT decided.",
     technique="static analysis: abstract interpretation over orderings + loop-carried-state dataflow",
     design="§3 E3/E2, §4 C08", engine="E3")
@@ -173,7 +177,8 @@ CLAIMS["C04"] = dict(
     text="Static decision that the set of rings cannot depend on the output mode: paths and tree builders send closed and open contours through "
          "the same calls with the same arguments, and every branch on using_polytree_ writes only ownership fields (owner, splits, recursive_split, "
          "polypath, OutPt::outrec), callees included (effect confinement; one reasoned exception). Path1InsidePath2's vertex vote (step and verdict for every count: a lead of two is decisive, only an equivocal count uses the "
-         "bounding-box midpoint); OutRec::splits lists only grow (never overwritten).",
+         "bounding-box midpoint); OutRec::splits lists only grow (never overwritten); Rect::Contains, the owner search's pre-filter, is closed "
+         "inclusion on every ordering.",
     note="That the owners are right (containment, depth alternation, area equality) is NOT decided.",
     technique="static analysis: effect confinement of option-controlled regions + pipeline identity",
     design="§3 E10, §4 C04", engine="E10")
@@ -210,7 +215,8 @@ CLAIMS["C06"] = dict(
          "conditions of 'orientation of the input (and ReverseSolution) is preserved' and '|delta| < 0.5 leaves the region unchanged': the "
          "clean-up union's 16-cell table (fill rule Negative iff paths reversed, output target, ReverseSolution(reverse_solution_ != "
          "paths_reversed), PreserveCollinear), the insignificant-delta shortcut, the sign of the group delta for every end type, the "
-         "definition of a reversed group, the output target set by every Execute overload, closing-vertex stripping per end type, and "
+         "definition of a reversed group, the output target set by every Execute overload, closing-vertex stripping per end type, x/y identical "
+         "with and without USINGZ in every offsetter function, and "
          "independence of the groups of one ClipperOffset (loop-carried-state dataflow); tables extracted by interpreting the AST over the complete finite domain of the flags.",
     note="Round / miter / square / bevel join geometry, tolerance bands, shrinking beyond the inradius: NOT decided.",
     technique="static analysis: interpreted decision tables over complete finite flag domains",
